@@ -178,6 +178,9 @@ class IndexGenerator(SymGenerator):
             if isinstance(lo, (int, np.integer)) and isinstance(hi, (int, np.integer)) and hi - lo <= 8:
                 return int(r)  # small ranges: explore every value (keeps products of draws linear)
             return r
+        lo, hi = (0, low) if high is None else (low, high)
+        if not (isinstance(lo, (int, np.integer)) and isinstance(hi, (int, np.integer)) and hi - lo <= 4096):
+            return r  # wide ranges (seeds drawn as an array) are never used as indices: they stay symbolic
         out = np.empty(r.shape, dtype=np.int64)
         for idx in np.ndindex(*r.shape):
             out[idx] = int(r[idx])
